@@ -9,7 +9,7 @@ EdDSA   EDP <params…>                                  parameters = table, bas
         EDPK <bytes> / EDPKN <bytes> / EDPKNC <bytes>   PublicKey.SetBytes: `x y re-encoding` / consumed / strict
         EDSIG <bytes>                                   Signature.SetBytes: `n Rx Ry S re-encoding`
         EDSK <bytes> / EDSKN <bytes> / EDSKX <bytes>    PrivateKey.SetBytes: `x y re-encoding` / consumed / over-long buffer
-ECDSA   ECP, ECV, ECVINF (model refuses the key "infinity"), ECPK, ECPKN, ECSIG, ECSK, ECH (HashToInt), ECR (RecoverFrom)
+ECDSA   ECP, ECV, ECVB (= ECV; triples built backwards from a chosen R), ECVINF (model refuses the key "infinity"), ECPK, ECPKN, ECSIG, ECSK, ECH (HashToInt), ECR (RecoverFrom)
         INV <q> <a>                                     the Euclid inverse of the model, and whether it equals the Fermat one
 `<hash>` ∈ sha256 | mimc | nil; for mimc `<oin>` are the recorded writes (`:`-separated) and `<oout>` the recorded sum.
 -/
@@ -104,7 +104,7 @@ def handleEc (P : ECParams) (op : String) (a : List String) : String :=
     else if !(P.E.onCurve P.G) then "base-off-curve"
     else if !(P.smulFast (Int.ofNat P.n) P.G).isNone then "order-wrong"
     else "ok"
-  | "ECV", [h, qx, qy, sig, msg, oin, oout] =>
+  | "ECV", [h, qx, qy, sig, msg, oin, oout] | "ECVB", [h, qx, qy, sig, msg, oin, oout] =>
     match mkHash h P.mimcSize P.mimcQ oin oout with
     | none => "bad-op"
     | some H => verdict (P.verify P.smulFast H (ECParams.ofAffine (parseHexD qx) (parseHexD qy)) (parseBytes sig) (parseBytes msg))
